@@ -70,3 +70,136 @@ Section Rank.
     apply K; try assumption. intros id Hid. split; [exact Hid|apply Hf, Hid].
   Qed.
 End Rank.
+
+(* ------------------------------------------------------------------------------------------ *)
+(* connect_all_terms returns on EVERY acyclic graph (no rank function given)                    *)
+(* ------------------------------------------------------------------------------------------ *)
+
+(* a list of consecutive parent links starting at x *)
+Fixpoint plinks (a : arena) (x : N) (l : list N) : Prop :=
+  match l with [] => True | y :: t => parent_rel a x y /\ plinks a y t end.
+
+Lemma plinks_same a a' x l : same_but_allp a a' -> plinks a' x l -> plinks a x l.
+Proof. intros S. revert x. induction l as [|y l IH]; intros x H; [exact I|]. destruct H as [H1 H2]. split; [apply (same_parent_rel a a' x y S), H1|apply IH, H2]. Qed.
+
+(* running out of fuel exhibits a chain of parent links as long as the fuel; nothing else goes wrong *)
+Lemma create_cache_ok_or_chain : forall fuel a id, wf_ar a -> Inv a -> In id (ar_keys a) ->
+  (exists a', create_cache fuel a id = Ok a') \/ (create_cache fuel a id = Fuel /\ exists l, length l = fuel /\ plinks a id l).
+Proof.
+  induction fuel as [|f IHf]; intros a id W I Hid; [right; split; [reflexivity|exists []; split; [reflexivity|exact Logic.I]]|].
+  cbn [create_cache]. destruct (get_unchecked_key a id W Hid) as [t [Eg [Hin Ht]]]. rewrite Eg. cbn [bind].
+  match goal with |- context [foldM ?F (t_parents t) (a, [])] => set (Gf := F) end.
+  assert (forall (ps : list N) (a1 : arena) (acc : list N), wf_ar a1 -> Inv a1 -> same_but_allp a a1 -> (forall p, In p ps -> In p (ar_keys a1) /\ parent_rel a id p) ->
+            (exists res, foldM Gf ps (a1, acc) = Ok res /\ step a1 (fst res)) \/
+            (foldM Gf ps (a1, acc) = Fuel /\ exists l, length l = S f /\ plinks a id l)) as K.
+  { induction ps as [|p ps IHp]; intros a1 acc W1 I1 S1 Hps; cbn [foldM]; [left; eexists; split; [reflexivity|apply step_refl]|].
+    destruct (Hps p (or_introl eq_refl)) as [Hpk Hrel].
+    destruct (get_unchecked_key a1 p W1 Hpk) as [tp [Egp [Hinp Hidp]]].
+    (* one step of the fold: either it yields a step-related arena, or it ran out of fuel along a chain *)
+    assert ((exists a2 acc2, Gf (a1, acc) p = Ok (a2, acc2) /\ step a1 a2) \/
+            (Gf (a1, acc) p = Fuel /\ exists l, length l = f /\ plinks a1 p l)) as [[a2 [acc2 [Eg2 S2]]]|[Eg2 [l [Hl Hlk]]]].
+    { unfold Gf. rewrite Egp. cbn [bind]. destruct (parents_cached tp).
+      - cbn [bind]. rewrite Egp. cbn [bind]. left. eexists _, _. split; [reflexivity|apply step_refl].
+      - destruct (IHf a1 p W1 I1 Hpk) as [[a2 E2]|[E2 Hc]].
+        + rewrite E2. cbn [bind]. destruct (create_cache_spec f a1 p a2 W1 I1 Hpk E2) as [S2 _].
+          pose proof (step_same a1 a2 S2) as Sm2. pose proof (same_wf a1 a2 Sm2 W1) as W2.
+          assert (In p (ar_keys a2)) as Hp2 by (rewrite (same_keys a1 a2 Sm2); exact Hpk).
+          destruct (get_unchecked_key a2 p W2 Hp2) as [tp' [Eg' _]]. rewrite Eg'. cbn [bind].
+          left. eexists _, _. split; [reflexivity|exact S2].
+        + rewrite E2. cbn [bind]. right. split; [reflexivity|exact Hc]. }
+    - rewrite Eg2. cbn [bind].
+      pose proof (step_same a1 a2 S2) as Sm2. pose proof (same_wf a1 a2 Sm2 W1) as W2.
+      pose proof (inv_step a1 a2 I1 S2) as I2. pose proof (same_keys a1 a2 Sm2) as K2.
+      assert (same_but_allp a a2) as S02.
+      { destruct S1 as [P1 F1]. destruct Sm2 as [P2 F2]. split; [congruence|].
+        clear -F1 F2. revert F2. generalize (ar_terms a2). induction F1 as [|x y l l' Hxy _ IH]; intros l2 F2; inversion F2 as [|? z ? l2' Hyz F2']; subst; constructor; [|apply IH, F2'].
+        rewrite Hyz, Hxy. destruct x; reflexivity. }
+      destruct (IHp a2 acc2 W2 I2 S02) as [[res [Er Sr]]|[Er Hc]].
+      + intros q Hq. destruct (Hps q (or_intror Hq)) as [Hqk Hqr]. split; [rewrite K2; exact Hqk|exact Hqr].
+      + left. exists res. split; [exact Er|eapply step_trans; eassumption].
+      + right. split; [exact Er|exact Hc].
+    - rewrite Eg2. cbn [bind]. right. split; [reflexivity|]. exists (p :: l). split; [cbn [length]; lia|].
+      split; [exact Hrel|apply (plinks_same a a1 p l S1 Hlk)]. }
+  destruct (K (t_parents t) a [] W I) as [[[a' acc] [Ef Sf]]|[Ef Hc]].
+  - apply step_same, step_refl.
+  - intros p Hp. split; [apply (wf_closed a W t Hin p Hp)|exists t; auto].
+  - left. rewrite Ef. cbn [bind]. apply update_unchecked_ok. rewrite <- Ht. apply (wf_range a W t Hin).
+  - right. rewrite Ef. cbn [bind]. split; [reflexivity|exact Hc].
+Qed.
+
+(* ---------------- a chain longer than the number of terms closes a cycle (pigeonhole) ---------------- *)
+
+Lemma plinks_prefix a : forall p q x, plinks a x (p ++ q) -> plinks a x p.
+Proof. induction p as [|y p IH]; intros q x H; [exact Logic.I|]. destruct H as [H1 H2]. split; [exact H1|apply (IH q y H2)]. Qed.
+
+Lemma plinks_suffix a : forall p y q x, plinks a x (p ++ y :: q) -> plinks a y q.
+Proof. induction p as [|z p IH]; intros y q x H; cbn [app plinks] in H; [apply H|]. destruct H as [_ H2]. apply (IH y q z H2). Qed.
+
+Lemma plinks_anc a : forall m c d, plinks a c (m ++ [d]) -> anc a c d.
+Proof.
+  induction m as [|y m IH]; intros c d H; cbn [app plinks] in H.
+  - apply t_step. apply H.
+  - destruct H as [H1 H2]. eapply t_trans; [apply t_step; exact H1|apply (IH y d H2)].
+Qed.
+
+Lemma plinks_keys a : wf_ar a -> forall l x, plinks a x l -> Forall (fun y => In y (ar_keys a)) l.
+Proof.
+  intros W. induction l as [|y l IH]; intros x H; [constructor|]. destruct H as [[t [Ht [_ Hp]]] H2].
+  constructor; [apply (wf_closed a W t Ht y Hp)|apply (IH y H2)].
+Qed.
+
+Lemma dup_split (l : list N) : ~ NoDup l -> exists c l1 l2 l3, l = l1 ++ c :: l2 ++ c :: l3.
+Proof.
+  induction l as [|x t IH]; intros H; [exfalso; apply H; constructor|].
+  destruct (in_dec N.eq_dec x t) as [Hin|Hnin].
+  - apply in_split in Hin as [l2 [l3 ->]]. exists x, [], l2, l3. reflexivity.
+  - destruct IH as [c [l1 [l2 [l3 ->]]]]; [intros Nd; apply H; constructor; assumption|]. exists c, (x :: l1), l2, l3. reflexivity.
+Qed.
+
+Lemma long_chain_cycle a x l : wf_ar a -> In x (ar_keys a) -> plinks a x l -> (length (ar_keys a) <= length l)%nat -> exists c, anc a c c.
+Proof.
+  intros W Hx Hl Hlen.
+  assert (~ NoDup (x :: l)) as Hnd.
+  { intros Nd. assert (incl (x :: l) (ar_keys a)) as Hi.
+    { intros y [<-|Hy]; [exact Hx|]. pose proof (plinks_keys a W l x Hl) as F. rewrite Forall_forall in F. apply F, Hy. }
+    pose proof (NoDup_incl_length Nd Hi) as H. cbn [length] in H. lia. }
+  destruct (dup_split (x :: l) Hnd) as [c [l1 [l2 [l3 E]]]]. exists c.
+  destruct l1 as [|z l1]; cbn [app] in E; injection E as -> ->.
+  - apply (plinks_anc a l2 c c). apply (plinks_prefix a (l2 ++ [c]) l3 c). rewrite <- app_assoc. exact Hl.
+  - pose proof (plinks_suffix a l1 c (l2 ++ c :: l3) z Hl) as Hs.
+    apply (plinks_anc a l2 c c). apply (plinks_prefix a (l2 ++ [c]) l3 c). rewrite <- app_assoc. exact Hs.
+Qed.
+
+(* CONNECT_ALL_TERMS RETURNS ON EVERY ACYCLIC GRAPH: with the fuel the code path uses (one more than the
+   number of terms) — running out of fuel would exhibit a chain of parent links longer than the number
+   of terms, hence a cycle *)
+Theorem connect_all_returns_on_acyclic a : wf_ar a -> (forall t, In t (ar_terms a) -> t_allp t = []) -> acyclic a ->
+  exists a', connect_all (default_fuel a) a = Ok a'.
+Proof.
+  intros W E Ac. unfold connect_all.
+  assert (Inv a) as I0 by (intros t Hin; left; apply E, Hin).
+  assert (forall ids a1, wf_ar a1 -> Inv a1 -> same_but_allp a a1 -> (forall id, In id ids -> In id (ar_keys a1)) ->
+            exists a', foldM (fun a0 id => create_cache (default_fuel a) a0 id) ids a1 = Ok a') as K.
+  { induction ids as [|id ids IH]; intros a1 W1 I1 S1 Hids; cbn [foldM]; [eexists; reflexivity|].
+    destruct (create_cache_ok_or_chain (default_fuel a) a1 id W1 I1 (Hids id (or_introl eq_refl))) as [[a2 E2]|[_ [l [Hl Hlk]]]].
+    - rewrite E2. cbn [bind]. destruct (create_cache_spec _ a1 id a2 W1 I1 (Hids id (or_introl eq_refl)) E2) as [S2 _].
+      pose proof (step_same a1 a2 S2) as Sm2.
+      apply IH; [apply (same_wf a1 a2 Sm2 W1)|apply (inv_step a1 a2 I1 S2)| |intros q Hq; rewrite (same_keys a1 a2 Sm2); apply Hids; right; exact Hq].
+      destruct S1 as [P1 F1]. destruct Sm2 as [P2 F2]. split; [congruence|].
+      clear -F1 F2. revert F2. generalize (ar_terms a2). induction F1 as [|x y l0 l' Hxy _ IH]; intros l2 F2; inversion F2 as [|? z ? l2' Hyz F2']; subst; constructor; [|apply IH, F2'].
+      rewrite Hyz, Hxy. destruct x; reflexivity.
+    - exfalso. destruct (long_chain_cycle a id l W) as [c Hc].
+      + rewrite <- (same_keys a a1 S1). apply Hids. left. reflexivity.
+      + apply (plinks_same a a1 id l S1 Hlk).
+      + rewrite Hl. unfold default_fuel, ar_keys. rewrite map_length. lia.
+      + apply (Ac c Hc). }
+  apply (K (ar_keys a) a W I0); [apply step_same, step_refl|auto].
+Qed.
+
+(* connect_all_terms returns EXACTLY on acyclic graphs *)
+Theorem connect_all_returns_iff_acyclic a : binv a -> ((exists a', connect_all (default_fuel a) a = Ok a') <-> acyclic a).
+Proof.
+  intros B. split.
+  - intros [a' H]. apply (connect_all_acyclic _ a a' B H).
+  - intros Ac. apply (connect_all_returns_on_acyclic a (b_wf _ B) (b_empty _ B) Ac).
+Qed.
